@@ -15,6 +15,8 @@ TEMPS = '--temps' in sys.argv
 INVERT = '--invert' in sys.argv       # if c: A else: B  ->  if not c: B else: A   (no other noise)
 NESTED = '--rename-nested' in sys.argv  # every nested function f gets the name f_impl (no other noise)
 MIRROR = '--mirror' in sys.argv       # a < b -> b > a, a == b -> b == a, ... for every two-operand comparison (no other noise)
+SPLAT = '--splat' in sys.argv         # f(a, k=v, j=w) -> f(a, **dict(k=v, j=w)) for every call with two or more keywords (no other noise)
+SPLATN = '--splat-named' in sys.argv  # y = f(a, k=v, j=w) -> _vf_kw = dict(k=v, j=w); y = f(a, **_vf_kw)   (statement-level calls only)
 KWPOS = '--kw-literals' in sys.argv   # f(x, flag=True) keeps its meaning when a literal keyword is re-ordered: keywords of every call reversed
 
 
@@ -55,6 +57,43 @@ class ReverseKeywords(ast.NodeTransformer):
     self.generic_visit(node)
     if len(node.keywords) > 1 and all(k.arg is not None for k in node.keywords):
       node.keywords = list(reversed(node.keywords))
+    return node
+
+
+class Splat(ast.NodeTransformer):
+  def visit_Call(self, node):
+    self.generic_visit(node)
+    if len(node.keywords) > 1 and all(k.arg is not None for k in node.keywords) and not (isinstance(node.func, ast.Name) and node.func.id == 'dict'):
+      node.keywords = [ast.keyword(arg=None, value=ast.Call(func=ast.Name(id='dict', ctx=ast.Load()), args=[], keywords=node.keywords))]
+    return node
+
+
+class SplatNamed(ast.NodeTransformer):
+  def __init__(self):
+    self.n = 0
+
+  def _blk(self, body):
+    out = []
+    for st in body:
+      st = self.visit(st)
+      v = getattr(st, 'value', None) if isinstance(st, (ast.Assign, ast.Expr, ast.Return)) else None
+      if isinstance(v, ast.Call) and len(v.keywords) > 1 and all(k.arg is not None for k in v.keywords) and not (isinstance(v.func, ast.Name) and v.func.id == 'dict') \
+          and not any(isinstance(x, (ast.Yield, ast.YieldFrom, ast.Await, ast.NamedExpr)) for x in ast.walk(v)):
+        # only when evaluating the keyword values first cannot be observed: positional arguments and callee are plain names / attributes / constants
+        if all(isinstance(a, (ast.Name, ast.Constant, ast.Attribute)) for a in v.args) and isinstance(v.func, (ast.Name, ast.Attribute)):
+          self.n += 1
+          nm = '_vf_kw%d' % self.n
+          out.append(ast.Assign(targets=[ast.Name(id=nm, ctx=ast.Store())], value=ast.Call(func=ast.Name(id='dict', ctx=ast.Load()), args=[], keywords=v.keywords), lineno=0, col_offset=0))
+          v.keywords = [ast.keyword(arg=None, value=ast.Name(id=nm, ctx=ast.Load()))]
+      out.append(st)
+    return out
+
+  def generic_visit(self, node):
+    super().generic_visit(node)
+    for fld in ('body', 'orelse', 'finalbody'):
+      b = getattr(node, fld, None)
+      if isinstance(b, list) and b and isinstance(b[0], ast.stmt) and not isinstance(node, ast.ClassDef) and not isinstance(node, ast.Module):
+        setattr(node, fld, self._blk(b))
     return node
 
 
@@ -156,6 +195,10 @@ def noisy(path):
     tree = Mirror().visit(tree)
   elif KWPOS:
     tree = ReverseKeywords().visit(tree)
+  elif SPLAT:
+    tree = Splat().visit(tree)
+  elif SPLATN:
+    tree = SplatNamed().visit(tree)
   else:
     tree = Noise().visit(tree)
   ast.fix_missing_locations(tree)
